@@ -263,6 +263,7 @@ class Kernel(object):
                               "hb_age": (self.clock - self.heartbeat_frozen(p)) if p and p.state == "alive" else None,
                               "lag": p.lag if p else None, "wtimeout": p.worker.timeout if p and p.worker else None,
                               "born": p.born if p else None, "last_reload": getattr(self, "last_reload", None),
+                              "old_generation": pid in getattr(self, "pre_reload_pids", ()),
                               "master_timeout": getattr(self.arbiter, "timeout", None) if self.arbiter else None})
         self.boundary("kill")
         p = self.procs.get(pid)
@@ -344,6 +345,7 @@ class Kernel(object):
                 self.deliver(getattr(real_signal, s))
         elif kind == "hup":
             self.last_reload = self.clock
+            self.pre_reload_pids = set(p.pid for p in live)
             self.next_reload_settings = {"workers": ev[1]}
             if len(ev) > 2 and isinstance(ev[2], int) and ev[2] > 0:
                 self.next_reload_settings["timeout"] = ev[2]
